@@ -10,8 +10,22 @@ package extension
 // an evicting cache may forget, never invent; Add is only permitted for pairs satisfying Inv. Together with
 // "Add is reached only after the hash comparison" Inv is inductive over every request history.
 //@ spec hashOf(string) string
-//@ trusted computeQueryHash(query) (h)
-//@   ensures h == hashOf(query)
+// computeQueryHash: what it hashes is pinned - the bytes of exactly the query it was given go through one
+// sha256.Sum256, the whole sum through one hex.EncodeToString, and that string is returned; that this composition IS
+// hashOf (SHA-256 and hex themselves) is the listed assumption.
+//@ trusted crypto/sha256.Sum256(data) (sum)
+//@   nopanic
+//@   pure
+//@ trusted encoding/hex.EncodeToString(src) (s)
+//@   nopanic
+//@   pure
+//@ func computeQueryHash [C15]
+//@   assumes res0 == hashOf(query)
+//@   ghost hexed = ""
+//@   at! `sha256.Sum256([]byte(query))` requires argtext0 == "[]byte(query)"
+//@   at! `hex.EncodeToString(b[:])` requires argtext0 == "b[:]"
+//@   at! `hex.EncodeToString(b[:])` ghost hexed = callres0
+//@   ensures res0 == hexed && calls(Sum256) == 1 && calls(EncodeToString) == 1
 //@   nopanic
 //@   pure
 //@ trusted (github.com/99designs/gqlgen/graphql.Cache[string]).Get(ctx, key) (value, ok)
